@@ -343,12 +343,14 @@ impl Prop for C17 {
 			big_blobs: false,
 			min_width_one: true,
 			push_ops: true,
+			scale: 1,
 		};
 		let file = if run % 3 != 2 {
 			let mut spec = container::gen_filespec(rng, &profile);
 			if rng.chance(1, 25) {
 				// a few larger files (tens of KiB)
-				spec.ops.push(container::Op::Blob { len: 10_000 + rng.below(60_000) as u32, seed: rng.next_u64(), compressible: rng.bool() });
+				let len = if rng.bool() { 10_000 + rng.below(60_000) as u32 } else { *rng.pick(&[65_530u32, 65_536, 65_537, 65_545, 66_000, 70_000, 100_000, 140_000]) };
+				spec.ops.push(container::Op::Blob { len, seed: rng.next_u64(), compressible: rng.bool() });
 				if spec.schema != crate::ast::Ty::Bytes {
 					spec.ops.pop();
 				}
@@ -356,10 +358,10 @@ impl Prop for C17 {
 			spec.end = End::IntoInner;
 			FileSrc::Crate(spec)
 		} else {
-			let schema = container::gen_schema_for(rng, &profile);
+			let (schema, scale) = container::gen_schema_maybe_scale(rng, &profile);
 			let env = Env::build(&schema);
-			let vcfg = ValCfg { max_len: 1 + rng.usize(6), max_depth: 4, budget: 6 + rng.below(30) as i32, str_boost: 0 };
-			let n = 1 + rng.usize(10);
+			let vcfg = ValCfg { max_len: 1 + rng.usize(6), max_depth: 4, budget: 6 + rng.below(30) as i32, str_boost: 0, scale: None }.with_scale(scale);
+			let n = if scale.is_some() { 1 + rng.usize(3) } else { 1 + rng.usize(10) };
 			let values: Vec<Val> = (0..n).map(|_| val::gen_val(rng, &env, &schema, &vcfg)).collect();
 			FileSrc::Ref(BSpec {
 				schema,
@@ -388,6 +390,12 @@ impl Prop for C17 {
 			return out;
 		};
 		let env = Env::build(&schema);
+		if file.len() >= 8192 {
+			out.count("scale_file_of_8_kib_or_more", 1);
+		}
+		if file.len() > 65536 {
+			out.count("scale_file_above_64_kib", 1);
+		}
 		let Ok(parsed) = ref_container::parse(&file) else {
 			// a writer that produces invalid files is C05/C06's finding, not this property's
 			out.count("skipped_file_not_valid", 1);
